@@ -47,7 +47,7 @@ func VerifC08_EqualWithinRelSpecial() {
 			d := math.Abs(a - b)
 			if d > 0x1p-1022 && !math.IsInf(d, 0) && tol == tol {
 				m := math.Max(math.Abs(a), math.Abs(b))
-				// d/m <= tol; the special values are chosen so that d/m is 0.4, 1, 2 or within 1e-16 of them
+				// the documented test |a-b| <= tol*max(|a|,|b|), evaluated as the quotient d/m <= tol
 				verifAssert(r == (d/m <= tol), "finite values: relative difference against tol")
 			}
 			if tol != tol {
